@@ -509,6 +509,9 @@ func histCheck(prop string, keep []string, quickOps, thoroughOps int, configure 
 			e.maxOps = thoroughOps
 		}
 		for i := 0; i < numToggles; i++ {
+			if i == tgGenExtra {
+				continue // only used by scripted histories (C08)
+			}
 			e.toggles = append(e.toggles, i)
 		}
 		e.flags = []buildFlags{{Pattern: "//..."}, {Pattern: "//b:top"}}
